@@ -10,6 +10,7 @@ import Driver.OpsGuard
 import Driver.OpsGeom
 import Driver.OpsFar
 import Driver.OpsFill
+import Driver.OpsNear
 open Driver
 
 def opGrid (args : List String) : String :=
@@ -55,6 +56,7 @@ def dispatch (line : String) : String :=
   | "geom" :: r => opGeom r
   | "far" :: r => opFar r
   | "fill" :: r => opFill r
+  | "near" :: r => opNear r
   | _ => "bad-op"
 
 partial def loop (h : IO.FS.Stream) (out : IO.FS.Stream) : IO Unit := do
